@@ -2,7 +2,7 @@ import PhyModel.Proofs.StoreCache_addDp
 /-! C06, `Tree.create_root_node(children, data)` and the compound
 `create_root_node(children)` + `add_data_point_to_node(dp, new)`: the new clone sits on top of whole
 top-level trees (whose caches are untouched), gets its `p` from its data and its `r` recomputed. -/
-namespace PhyModel.Store
+namespace PhyModel.Store.C06
 open PhyModel
 
 /-! ### association lists -/
@@ -168,4 +168,4 @@ theorem cacheOK_createAdd (dt : Data) (s s1 s' : Store) (ch : List Int) (dp : Na
       rw [hf] at hc1f
       exact ⟨h4' hc1f.1, h5' _ hc1f.2.1, hc1f.2.2.1, hc1f.2.2.2⟩
 
-end PhyModel.Store
+end PhyModel.Store.C06
